@@ -440,7 +440,7 @@ class C04(Check):
     ]
 
     def runs(self, tier):
-        return 1200 if tier == "quick" else 30000
+        return 2500 if tier == "quick" else 30000
 
     def make(self, ctx, index):
         rng = core.rng_for(ctx.seed, "c04", index)
